@@ -308,3 +308,17 @@ func randMapping(r *eng.Rand, npoly, slots int) (mapping map[int][]int, owner []
 	}
 	return
 }
+
+// flagClass is the discriminating predicate of a failing polynomial-evaluation case: which
+// user-settable flag of the polynomial selects a special code path.
+func flagClass(shape string, lazy bool) string {
+	switch {
+	case lazy:
+		return "lazy"
+	case shape == shEven:
+		return "even-flag"
+	case shape == shOdd:
+		return "odd-flag"
+	}
+	return "general"
+}
